@@ -422,7 +422,11 @@ class _Inliner:
             return None
         body = _helper_body(helper)
         if _expr_bodied(helper) is not None and mode != "tail":
-            return None               # handled by the expression inliner
+            try:
+                if not _bind(helper, call, is_method)[0]:
+                    return None               # no temporaries needed: handled by the expression inliner
+            except _NotInlinable:
+                return None
         try:
             if mode != "tail" and _has_return_in_loop_or_with(body):
                 raise _NotInlinable("return in loop/with")
